@@ -348,8 +348,10 @@ def rule_prune(ctx):
             env["attr_end[%smonth%s]" % (q, q)] = me
             env["%smonth%s in attr_start" % (q, q)] = True
             env["%smonth%s in attr_end" % (q, q)] = True
-            env["attr_start.get(%smonth%s)" % (q, q)] = ms
-            env["attr_start.get(%smonth%s, None)" % (q, q)] = ms
+            for nm_, (y_, m_) in (("attr_start", (ys, ms)), ("attr_end", (ye, me))):
+                for key_, val_ in (("year", y_), ("month", m_)):
+                    env["%s.get(%s%s%s)" % (nm_, q, key_, q)] = val_
+                    env["%s.get(%s%s%s, None)" % (nm_, q, key_, q)] = val_
         try:
             got = bool(Interp(env).ev(fbx))
         except AnalysisError as e_:
@@ -542,36 +544,71 @@ RESETS = {"day": {"hour", "minute", "second", "microsecond"}, "hour": {"minute",
 def rule_trunc_table(ctx):
     ctx.rule("C01.trunc", "T3", "set_time_resolution(u) resets exactly the fields finer than u")
     f = ctx.func(TIMEUTILS, "set_time_resolution")
+    flow = Flow(f)
+    unit = f.params[1]
+    tests = [n for n in ast.walk(f.node) if isinstance(n, ast.Compare) and len(n.ops) == 1 and norm(n.left) == unit]
+
+    def assumptions(u):
+        """truth value of every comparison of the unit parameter with constants when it equals u"""
+        out = {}
+        for t in tests:
+            c = t.comparators[0]
+            try:
+                v = ast.literal_eval(c)
+            except Exception:
+                raise AnalysisError("set_time_resolution: comparison %s of the unit with a non-constant" % norm(t))
+            op = t.ops[0]
+            if isinstance(op, (ast.Eq, ast.NotEq)):
+                r = (u == v) == isinstance(op, ast.Eq)
+            elif isinstance(op, (ast.In, ast.NotIn)):
+                r = (u in v) == isinstance(op, ast.In)
+            else:
+                raise AnalysisError("set_time_resolution: comparison %s of the unit outside ==, !=, in" % norm(t))
+            out[str(norm(t))] = r
+        return out
+    exits = [st for st in flow.stmts if isinstance(st, (ast.Return, ast.Raise))]
+    units_known = set()
+    for t in tests:
+        try:
+            v = ast.literal_eval(t.comparators[0])
+        except Exception:
+            continue
+        units_known.update([v] if isinstance(v, str) else [x for x in v if isinstance(x, str)])
     arms = {}
-    cur = f.body[0] if f.body else None
-    while isinstance(cur, ast.If):
-        t = cur.test
-        if isinstance(t, ast.Compare) and isinstance(t.comparators[0], ast.Constant):
-            arms[t.comparators[0].value] = cur.body[0]
-        cur = cur.orelse[0] if cur.orelse and isinstance(cur.orelse[0], ast.If) else None
+    for u in sorted(units_known):
+        asm = assumptions(u)
+        live = [st for st in exits if flow.live_under(st, asm)]
+        if len(live) != 1:
+            raise AnalysisError("set_time_resolution: %d exits reachable for unit '%s'" % (len(live), u))
+        if isinstance(live[0], ast.Return):
+            arms[u] = (live[0], asm)
     bad = []
 
-    def fields(u, depth=0):
-        """field -> value set by the branch for unit u (following `set_time_resolution(x, 'v').replace(...)`)"""
-        r = arms.get(u)
-        if r is None or not isinstance(r, ast.Return) or not isinstance(r.value, ast.Call) or depth > 3:
+    def value_fields(e, asm, at, depth):
+        if depth > 6:
             return None
-        c = r.value
-        if not (isinstance(c.func, ast.Attribute) and c.func.attr == "replace") or c.args:
-            return None
-        kw = {k.arg: norm(k.value) for k in c.keywords}
-        base = c.func.value
-        if norm(base) == f.params[0]:
-            return kw
-        if isinstance(base, ast.Call) and dotted(base.func) == "set_time_resolution" and len(base.args) == 2 and norm(base.args[0]) == f.params[0] \
-                and isinstance(base.args[1], ast.Constant):
-            inner = fields(base.args[1].value, depth + 1)
+        if norm(e) == f.params[0]:
+            return {}
+        if isinstance(e, ast.Call) and isinstance(e.func, ast.Attribute) and e.func.attr == "replace" and not e.args:
+            inner = value_fields(e.func.value, asm, at, depth + 1)
             if inner is None:
                 return None
             inner = dict(inner)
-            inner.update(kw)
+            inner.update({k.arg: norm(k.value) for k in e.keywords})
             return inner
+        if isinstance(e, ast.Call) and dotted(e.func) == "set_time_resolution" and len(e.args) == 2 and norm(e.args[0]) == f.params[0] \
+                and isinstance(e.args[1], ast.Constant):
+            return fields(e.args[1].value, depth + 1)
         return None
+
+    def fields(u, depth=0):
+        """field -> value set by the exit reached for unit u (following `set_time_resolution(x, 'v')`, temporaries and `.replace(...)` chains)"""
+        if u not in arms or depth > 6:
+            return None
+        r, asm = arms[u]
+        if r.value is None:
+            return None
+        return value_fields(flow.resolve_under(r.value, asm, at=r, stop=(f.params[0], unit)), asm, r, depth)
     want_all = dict((u, {k: "0" for k in v}) for u, v in RESETS.items())
     want_all["month"] = dict(want_all["day"], day="1")
     want_all["year"] = dict(want_all["day"], day="1", month="1")
